@@ -29,12 +29,16 @@ def expected_exponent(x_abs, min_exp, max_exp, max_value, mode):
     v = np.minimum(v, float(max_value))
   with np.errstate(divide="ignore"):
     l = np.log2(v)
+  # the library's float32 quotient log(x)/log(2) is off by a few ulps of |log2 x|: inside that band either
+  # neighbour is accepted.  (A constant band of 3e-5 was 10x wider than needed for small exponents and hid a
+  # +1e-5 shift of the floor breakpoints, seeded change C03-G.)
+  band = np.minimum(BAND, 6e-7 * (np.abs(l) + 1.0))
   if mode == "floor":
-    a = np.floor(l - BAND)
-    b = np.floor(l + BAND)
+    a = np.floor(l - band)
+    b = np.floor(l + band)
   else:
-    a = np.floor(l - BAND + 0.5)
-    b = np.floor(l + BAND + 0.5)
+    a = np.floor(l - band + 0.5)
+    b = np.floor(l + band + 0.5)
     # exact half-way in log space (never hit by float inputs) -> both anyway
   a = np.clip(a, min_exp, max_exp)
   b = np.clip(b, min_exp, max_exp)
@@ -47,7 +51,10 @@ def probes(min_exp, max_exp, max_value, rng, n_random=256):
   es = np.arange(lo, hi + 1, dtype=np.float64)
   base = np.concatenate([2.0 ** es, math.sqrt(2.0) * 2.0 ** es, 1.2 * 2.0 ** es, 1.7 * 2.0 ** es,
                          math.sqrt(2.0) * 2.0 ** es * (1 + 2e-4), math.sqrt(2.0) * 2.0 ** es * (1 - 2e-4),
-                         2.0 ** es * (1 + 2e-4), 2.0 ** es * (1 - 2e-4)])
+                         2.0 ** es * (1 + 2e-4), 2.0 ** es * (1 - 2e-4),
+                         # between the float band and the coarse offsets: a few tens of ulps off a breakpoint
+                         2.0 ** es * (1 + 5e-6), 2.0 ** es * (1 - 5e-6), 2.0 ** es * (1 - 2e-5),
+                         math.sqrt(2.0) * 2.0 ** es * (1 + 5e-6), math.sqrt(2.0) * 2.0 ** es * (1 - 5e-6)])
   b32 = base.astype(np.float32)
   pts = [b32]
   u, d = b32, b32
